@@ -207,6 +207,7 @@ func drbgRun(t *Trace, mech string, gm bool, alg string, exact bool, pass int) *
 			if !bytes.Equal(e, ke) || !bytes.Equal(n, kn) || !bytes.Equal(p, kp) {
 				return &Mismatch{Step: i, Kind: "mismatch", Got: "constructor modified an input", Exp: "inputs unchanged"}
 			}
+			Reuse(e, n, p) // the caller wipes its seed material once the generator exists
 			if err == nil {
 				if x == nil {
 					return &Mismatch{Step: i, Kind: "mismatch", Got: "nil object without error", Exp: "object"}
@@ -237,6 +238,7 @@ func drbgRun(t *Trace, mech string, gm bool, alg string, exact bool, pass int) *
 			if !bytes.Equal(addl, ka) {
 				return &Mismatch{Step: i, Kind: "mismatch", Got: "Generate modified the additional input", Exp: "input unchanged"}
 			}
+			Reuse(addl)
 			if !untouched(whole[:drbgGuard]) || !untouched(whole[drbgGuard+n:]) {
 				return &Mismatch{Step: i, Kind: "mismatch", Got: "Generate wrote outside the output buffer", Exp: "guard zones untouched"}
 			}
@@ -262,6 +264,7 @@ func drbgRun(t *Trace, mech string, gm bool, alg string, exact bool, pass int) *
 			if !bytes.Equal(e, ke) || !bytes.Equal(addl, ka) {
 				return &Mismatch{Step: i, Kind: "mismatch", Got: "Reseed modified an input", Exp: "inputs unchanged"}
 			}
+			Reuse(e, addl)
 		case "tick":
 			time.Sleep(time.Duration(st.Int("ms")) * time.Millisecond)
 		default:
